@@ -1,5 +1,5 @@
 (* C14 cases and oracle: JSON / text forms of the value types of package types. *)
-From UV Require Import Base.Bytes Model.WireTypes Model.Addr Model.Cases15 Model.TextForms.
+From UV Require Import Base.Bytes Model.WireTypes Model.Addr Model.Cases15 Model.TextForms Model.TextComposites.
 Open Scope N_scope.
 
 Definition to_json (t : ty) (v : cv) (aux : list N) : option json :=
@@ -16,7 +16,9 @@ Definition to_json (t : ty) (v : cv) (aux : list N) : option json :=
   | TyAddr r => str (addr_to r v)
   | TyWeekdays => str (weekdays_to v)
   | TySegments => segments_to v
-  | _ => None
+  | TyCard => card_to v
+  | TyProfile => profile_to v
+  | TyTask => task_to v
   end.
 
 Definition of_json (t : ty) (prior : list cv) (j : json) : presult cv :=
@@ -38,7 +40,9 @@ Definition of_json (t : ty) (prior : list cv) (j : json) : presult cv :=
   | TyWeekdays, JStr s => opt (weekdays_of s)
   | TyWeekdays, JNull => opt (weekdays_of [])              (* null leaves the intermediate string empty *)
   | TySegments, _ => opt (segments_of prior j)
-  | (TyCard | TyProfile | TyTask), _ => PUnknown
+  | TyCard, _ => card_of j
+  | TyProfile, _ => profile_of j
+  | TyTask, _ => task_of j
   | _, _ => PErr
   end.
 
@@ -115,11 +119,7 @@ Definition text_to (k : N) (v : cv) : option (list N) :=
 Definition model_ok14 (c : case14) : bool :=
   match c with
   | CRound t v aux j back =>
-      match t with
-      | TyCard | TyProfile | TyTask => true                                   (* composites: oracle only *)
-      | _ => match to_json t v aux with Some mj => json_eqb mj j | None => false end
-             && res_ok (of_json t [] j) back
-      end
+      match to_json t v aux with Some mj => json_eqb mj j | None => false end && res_ok (of_json t [] j) back
   | COf t prior j obs => res_ok (of_json t prior j) obs
   | CText k s obs => res_ok (text_of k s) obs
   | CTextRound k v s obs => match text_to k v with Some ms => nlist_eqb ms s | None => false end && res_ok (text_of k s) obs
@@ -151,6 +151,9 @@ Definition text_dom (k : N) (v : cv) : bool :=
   else if k =? 3 then match v with VZ t => ((0 <=? t) && (t <=? 12))%Z | _ => false end
   else match v with VZ 0 | VZ 1 => true | _ => false end.
 
+Definition date_dom14 (y m d : Z) : bool :=
+  ((y =? 1) && (m =? 1) && (d =? 1))%Z || ((1 <=? y)%Z && (y <=? 9999)%Z && valid_ymd (Z.to_N y) (Z.to_N m) (Z.to_N d) && (0 <=? m)%Z && (0 <=? d)%Z).
+
 Definition in_dom (t : ty) (v : cv) : bool :=
   match t, v with
   | TyDate, VL [VZ y; VZ m; VZ d] => ((y =? 1) && (m =? 1) && (d =? 1))%Z || ((1 <=? y)%Z && (y <=? 9999)%Z && valid_ymd (Z.to_N y) (Z.to_N m) (Z.to_N d))
@@ -166,7 +169,17 @@ Definition in_dom (t : ty) (v : cv) : bool :=
   | TyAddr r, VL [VS a; VZ p] => Nat.eqb (length a) 4 && forallb (fun x => x <? 256) a && (0 <=? p)%Z && (p <? 65536)%Z && rule r (Z.to_N p)
   | TyWeekdays, VL fl => Nat.eqb (length fl) 7 && forallb (fun x => match x with VZ 0 | VZ 1 => true | _ => false end) fl
   | TySegments, VL its => Nat.eqb (length its) 3 && forallb seg_item_ok its
-  | (TyCard | TyProfile | TyTask), _ => true
+  | TyCard, VL [VZ n; VL [VZ y1; VZ m1; VZ d1]; VL [VZ y2; VZ m2; VZ d2]; VL [VZ a; VZ b; VZ c; VZ d]; VZ pin] =>
+      (* the decoder demands both dates: a card without dates is outside the JSON domain *)
+      ((0 <=? n) && (n <? 4294967296))%Z && text_dom 0 (VL [VZ y1; VZ m1; VZ d1]) && text_dom 0 (VL [VZ y2; VZ m2; VZ d2])
+      && forallb (fun x => (0 <=? x) && (x <? 256))%Z [a; b; c; d] && ((0 <=? pin) && (pin <=? 999999))%Z
+  | TyProfile, VL [VZ id; VZ linked; VL [VZ y1; VZ m1; VZ d1]; VL [VZ y2; VZ m2; VZ d2]; VL fl; VL [s1; s2; s3]] =>
+      forallb (fun x => (0 <=? x) && (x <? 256))%Z [id; linked] && date_dom14 y1 m1 d1 && date_dom14 y2 m2 d2
+      && Nat.eqb (length fl) 7 && forallb (fun x => match x with VZ 0 | VZ 1 => true | _ => false end) fl
+      && forallb (fun it => match it with VL [VZ 1; _] => seg_item_ok it | _ => false end) [s1; s2; s3]
+  | TyTask, VL [VZ ty; VZ door; VL [VZ y1; VZ m1; VZ d1]; VL [VZ y2; VZ m2; VZ d2]; VL fl; VL [VZ h; VZ mi]; VZ cards] =>
+      ((0 <=? ty) && (ty <=? 12))%Z && forallb (fun x => (0 <=? x) && (x <? 256))%Z [door; cards] && date_dom14 y1 m1 d1 && date_dom14 y2 m2 d2
+      && Nat.eqb (length fl) 7 && forallb (fun x => match x with VZ 0 | VZ 1 => true | _ => false end) fl && hhmm_dom h mi
   | _, _ => false
   end.
 
